@@ -1,5 +1,6 @@
 (* C13 — Bad route definitions fail at registration; accepted ones never panic at lookup. Property theorems only. *)
 From Rux Require Import Base Str Norm Table PatTable TableLink Sys SysFacts SysHistory SysMore SysEnd.
+From Rux Require Import Options.
 From Rux Require Import Base Str Norm NormFacts Consts Rx RxParse Pattern Cache Table TableFacts Reg RegFacts.
 
 (* rejected classes *)
@@ -70,6 +71,23 @@ Theorem C13_end_to_end_total_history : forall progs hooks o ss s es h,
   Forall (fun r => r <> None) (sys_outcomes progs hooks s h).
 Proof. exact sys_total_history. Qed.
 
+(* F21 (repaired by 2e792e1): however the router is configured - options in batches (New / WithOptions), option functions
+   called directly with the router, before or after routes are added, in any order - a lookup finds a route-cache container
+   whenever caching is on, and the container has the capacity configured last *)
+Theorem C13_options_container : forall steps,
+  lookup_ok (run true steps init) /\ cap_ok (run true steps init).
+Proof. exact options_container_fixed. Qed.
+Theorem C13_options_capacity : forall steps,
+  en (run true steps init) = true -> cont (run true steps init) = Some (configured_num steps).
+Proof. exact options_capacity_fixed. Qed.
+(* before the repair: rux.EnableCaching(r) on a router without routes left the container nil (the next lookup panicked);
+   configurations made of New / WithOptions batches only were fine *)
+Theorem C13_legacy_F21_refuted : exists steps, ~ lookup_ok (run false steps init).
+Proof. exact options_container_legacy_refuted. Qed.
+Theorem C13_legacy_F21_batches_fine : forall batches,
+  lookup_ok (run false (map SBatch batches) init) /\ cap_ok (run false (map SBatch batches) init).
+Proof. exact options_container_legacy_batches. Qed.
+
 Print Assumptions C13_rejects_nil_handler.
 Print Assumptions C13_rejects_no_method.
 Print Assumptions C13_rejects_unknown_method.
@@ -84,3 +102,7 @@ Print Assumptions C13_total_lookup.
 Print Assumptions C13_legacy_F05_refuted.
 Print Assumptions C13_end_to_end_total.
 Print Assumptions C13_end_to_end_total_history.
+Print Assumptions C13_options_container.
+Print Assumptions C13_options_capacity.
+Print Assumptions C13_legacy_F21_refuted.
+Print Assumptions C13_legacy_F21_batches_fine.
